@@ -13,6 +13,7 @@
 //   type <id> <type-expr>            -> ok | mismatch <real descriptor>
 //   types                            -> one line: <id>=<descriptor> …
 //   enc  <id> <value>                -> ok <size> <hex|->
+//   encu <id> <value>                -> ok <size> <hex of the SORTED bytes>   (types with unordered containers)
 //   enc2 <id> <value1> <value2>      -> ok <size> <hex|->       (same object serialized, mutated, serialized again)
 //   rt   <id> <value> <pres>         -> ok <value parsed back>  (serialize, parse through <pres> into a fresh object)
 //   dec  <id> <hex|-> <pres>         -> ok <value> | fail
@@ -638,6 +639,19 @@ template <class F> static std::string guarded(F&& fn) {
   return out;
 }
 
+// `encu`: unordered containers iterate in an unspecified order, so the bytes are printed sorted (the real bytes are
+// compared through `dec` of what `enc` printed)
+static std::string sort_hex(const std::string& line) {
+  std::istringstream is(line);
+  std::string ok, size, h, rest;
+  is >> ok >> size >> h;
+  std::getline(is, rest);
+  std::string raw;
+  if (!unhex(h, raw)) return line;
+  std::sort(raw.begin(), raw.end(), [](char a, char b) { return (unsigned char)a < (unsigned char)b; });
+  return ok + " " + size + " " + hex_or_dash(raw) + rest;
+}
+
 static std::string run_line(const std::vector<std::string>& w) {
   try {
     if (w.empty()) return "bad-op";
@@ -655,6 +669,7 @@ static std::string run_line(const std::vector<std::string>& w) {
       return d == w[2] ? "ok" : "mismatch " + d;
     }
     if (w[0] == "enc" && w.size() == 3) return e->enc(parse_value(w[2]));
+    if (w[0] == "encu" && w.size() == 3) return sort_hex(e->enc(parse_value(w[2])));
     if (w[0] == "enc2" && w.size() == 4) return e->enc2(parse_value(w[2]), parse_value(w[3]));
     Pres p;
     std::string in;
